@@ -161,3 +161,39 @@ theorem classify_response (C : Ops) (hC : C.Lawful) (k : Keys) (c : Cmd) (cc : U
   cases isTemp cc <;> simp
 
 end Bmc.Proto
+
+namespace Bmc.Proto
+open Bmc Bmc.Wire Bmc.Crypto
+
+/-- two commands are the same operation when NetFn, command number, group body code and OEM enterprise agree -/
+def sameOperation (c c' : Cmd) : Bool := c'.fn == c.fn && c'.cmd == c.cmd && c'.body == c.body && c'.ent == c.ent
+
+/-- a conforming response to ANOTHER operation `c'` — authentic, for this session, any completion code and body — is
+    classified as a retry while `c` is pending: it never becomes `c`'s result -/
+theorem classify_stray (C : Ops) (hC : C.Lawful) (k : Keys) (c c' : Cmd) (hne : sameOperation c c' = false) (cc : UInt8) (data : Bytes)
+    (seq : Nat) (iv : Bytes) (hiv : iv.length = 16) (hm : (responseMsg c' cc).WF) (hid : k.localID < 4294967296)
+    (hseq : seq < 4294967296) (hlen : (responseAes C k c' cc data iv).length < 65536) :
+    classify C k c (responseDatagram C k c' cc data seq iv) = .retry := by
+  obtain ⟨r, v2, msg, h, ha, _, hidv, _, hf, hcmd, hb, he, hcc, hp⟩ :=
+    onReply_response C hC k.sess c' cc data seq iv hiv hm hid hseq hlen
+  have hk : k.sess.keys = k := rfl
+  rw [hk] at h
+  unfold classify
+  rw [h]
+  simp only [view, if_true]
+  have hacc : accept k c v2 msg = false := by
+    simp only [accept, hf, hcmd, hb, he]
+    simp only [sameOperation] at hne
+    by_cases h1 : c'.fn + 1 = c.fn + 1
+    · have h1' : c'.fn = c.fn := by
+        have := congrArg (· - 1) h1
+        simpa using this
+      simp only [h1', beq_self_eq_true, Bool.true_and] at hne
+      simp only [h1', beq_self_eq_true, Bool.and_true]
+      cases hx : (c'.cmd == c.cmd) <;> cases hy : (c'.body == c.body) <;> cases hz : (c'.ent == c.ent) <;> simp_all
+    · have : (c'.fn + 1 == c.fn + 1) = false := by simpa using h1
+      simp [this]
+  rw [hacc]
+  simp
+
+end Bmc.Proto
